@@ -38,7 +38,7 @@ impl Compiler {
     fn pop_loop(&mut self) -> (r: Result<(), CompilerError>) ensures final(self).chunk.code@.len() == old(self).chunk.code@.len(), final(self).chunk == old(self).chunk { unimplemented!() }
 }
 
-pub struct Parser { pub comp: Compiler, pub ghost targets: Map<int, int>, pub ghost had_error: bool, pub ghost parsed_at: Seq<Precedence> }
+pub struct Parser { pub comp: Compiler, pub nesting: usize, pub ghost targets: Map<int, int>, pub ghost had_error: bool, pub ghost parsed_at: Seq<Precedence> }
 
 impl Parser {
     pub open spec fn code(&self) -> Seq<u8> { self.comp.chunk.code@ }
@@ -56,6 +56,12 @@ impl Parser {
     fn chunk(&self) -> (r: &Chunk) ensures *r == self.comp.chunk { unimplemented!() }
     #[verifier::external_body]
     fn compiler_mut(&mut self) -> (r: &mut Compiler) ensures *r == old(self).comp, final(self).comp == *final(r), final(self).targets == old(self).targets, final(self).had_error == old(self).had_error { unimplemented!() }
+    // compiler.rs enter_nesting (its own contract: unit pratt): a nesting level is entered, or a compile error is reported
+    #[verifier::external_body]
+    fn enter_nesting(&mut self) -> (r: bool)
+        ensures final(self).comp == old(self).comp, final(self).targets == old(self).targets, final(self).parsed_at == old(self).parsed_at, old(self).had_error ==> final(self).had_error,
+            r ==> final(self).nesting == old(self).nesting + 1 && final(self).nesting >= 1, !r ==> final(self).nesting == old(self).nesting
+    { unimplemented!() }
     #[verifier::external_body]
     fn compiler(&self) -> (r: &Compiler) ensures *r == self.comp { unimplemented!() }
     #[verifier::external_body]
@@ -109,7 +115,7 @@ impl Parser {
     #[verifier::external_body]
     fn block(&mut self) ensures old(self).extends(final(self)) { unimplemented!() }
     #[verifier::external_body]
-    fn statement(&mut self) ensures old(self).extends(final(self)) { unimplemented!() }
+    fn statement(&mut self) ensures old(self).extends(final(self)), final(self).nesting == old(self).nesting { unimplemented!() }
     #[verifier::external_body]
     fn begin_scope(&mut self) ensures old(self).quiet(final(self)) { unimplemented!() }
     #[verifier::external_body]
